@@ -1,0 +1,40 @@
+//go:build verif
+
+package maypanic
+
+// Machine-checked contracts (comment-only; build tag `verif`); read by /verif/govc.
+
+// C19: every go statement of every function in allFunctions records the launched
+// function as a goroutine entry. W() is an arbitrary go instruction: instruction
+// ii of block bi of function gf, for an arbitrary key gf of the map (iterated in
+// arbitrary order).
+
+//@ macro W() = gf.Blocks[bi].Instrs[ii].(*ssa.Go)
+//@ macro Hstatic() = (!W().Call.IsInvoke() && istype(W().Call.Value, *ssa.Function))
+//@ macro Fstatic() = called(addGoFunction, W().Call.Value.(*ssa.Function), W().Pos(), _)
+//@ macro Hclosure() = (!W().Call.IsInvoke() && istype(W().Call.Value, *ssa.MakeClosure) && istype(W().Call.Value.(*ssa.MakeClosure).Fn, *ssa.Function))
+//@ macro Fclosure() = called(addGoFunction, W().Call.Value.(*ssa.MakeClosure).Fn.(*ssa.Function), W().Pos(), _)
+//@ macro Fany() = called(addGoFunction, _, W().Pos(), _)
+
+//@ func findGoFunctions
+//@   property C19
+//@   ghost gf *ssa.Function
+//@   ghost bi int
+//@   ghost ii int
+//@   requires has(allFunctions, gf) && gf != nil && 0 <= bi && bi < len(gf.Blocks) && gf.Blocks[bi] != nil
+//@   requires 0 <= ii && ii < len(gf.Blocks[bi].Instrs) && istype(gf.Blocks[bi].Instrs[ii], *ssa.Go) && ref(gf.Blocks[bi].Instrs[ii]) != 0
+//@   ensures static: Hstatic() ==> Fstatic()
+//@   ensures closure: Hclosure() ==> Fclosure()
+//@   ensures invoke_mode: W().Call.IsInvoke() ==> Fany()
+//@   ensures function_value: !W().Call.IsInvoke() && !Hstatic() && !Hclosure() ==> Fany()
+//@   loop f invariant visited(f, gf) ==> (Hstatic() ==> Fstatic()) && (Hclosure() ==> Fclosure())
+//@   loop b invariant f == gf && bi < iter(b) ==> (Hstatic() ==> Fstatic()) && (Hclosure() ==> Fclosure())
+//@   loop instr invariant f == gf && bi == iter(b) && ii < iter(instr) ==> (Hstatic() ==> Fstatic()) && (Hclosure() ==> Fclosure())
+
+//@ func addGoFunction
+//@   property C19
+//@   requires goFunctions != nil
+//@   ensures recorded: has(goFunctions, f) && len(goFunctions[f]) == old(len(goFunctions[f])) + 1
+//@   ensures last: goFunctions[f][len(goFunctions[f]) - 1] == pos
+//@   ensures others: forall g *ssa.Function :: g != f ==> (has(goFunctions, g) <==> old(has(goFunctions, g))) && goFunctions[g] == old(goFunctions[g])
+//@   modifies map(*ssa.Function;[]token.Pos), elems(token.Pos)
